@@ -10,7 +10,7 @@ from impl import trees, transitions, transitionoutput, treeoutput, quiet, clone
 from props.c04 import HEADS
 
 ID = "C10"
-MODULE = ['TT.Props.C10', 'TT.Props.C10Run', 'TT.Props.C10More']
+MODULE = ['TT.Props.C10', 'TT.Props.C10Run', 'TT.Props.C10More', 'TT.Props.C10Sentence']
 RULE = ("random well-formed head-marked trees: binarized (topdown: continuous; gap: continuous and discontinuous) or of "
         "arbitrary arity (inorder, continuous), unary nodes at any depth incl. an added TOP root and above tokens, "
         "one-token sentences; the emitted sequence is executed by the specification automaton and compared with the "
@@ -103,6 +103,7 @@ def one(rng, system):
         lines.append(Line("pred", "P.C10", [system, a, out]))
         s = ",".join("%s/%s" % (proto.enc_s(w), proto.enc_s(p)) for (w, p) in sent)
         lines.append(Line("pred", "P.C10.sentence", [a, s]))
+        lines.append(Line("corr", "oracle_sentence", [a], s))
         if rng.random() < 0.35:
             pos = rng.random() < 0.5
             with cli.Scratch() as sc:
